@@ -601,6 +601,9 @@ where
     #[cfg_attr(feature = "tracing", tracing::instrument(name = "Session::event_loop", skip(self), fields(outgoing_channel = %self.session.outgoing_channel().0)))]
     async fn event_loop(mut self, tx: oneshot::Sender<Result<(), Error>>) {
         let mut outcome = Ok(());
+        // Once the link-to-session channel is closed and drained, polling it again
+        // would complete immediately and turn this loop into a busy spin
+        let mut outgoing_link_frames_closed = false;
         loop {
             let result = tokio::select! {
                 incoming = self.incoming.recv() => {
@@ -665,7 +668,7 @@ where
                         }
                     }
                 },
-                frame = self.outgoing_link_frames.recv() => {
+                frame = self.outgoing_link_frames.recv(), if !outgoing_link_frames_closed => {
                     match frame {
                         Some(frame) => self.on_outgoing_link_frames(frame).await,
                         None => {
@@ -673,6 +676,7 @@ where
                             //
                             // Upon ending, all link-to-session channels will be closed
                             // first while the session is still waitint for remote end frame.
+                            outgoing_link_frames_closed = true;
                             Ok(Running::Continue)
                         }
                     }
